@@ -349,18 +349,44 @@ package gohbase
 //@   loop 1 invariant[C17] backoff == sched(ghost("nsleeps") - old(ghost("nsleeps"))) && ghost("nsleeps") >= old(ghost("nsleeps"))
 //@   loop 1 invariant[C17] ghost("lookups") - old(ghost("lookups")) == ghost("nsleeps") - old(ghost("nsleeps"))
 
+// removal from the location cache marks the region dead (its users re-resolve), whether or not it was cached (C08)
 //@ func gohbase.(*keyRegionCache).del
-//@   trusted "frame abstraction for the establisher: touches the location cache and marks the region dead, not the availability marks"
+//@   requires reg != nil
 //@   modifies X.regionstate, X.ctxdone
+//@   ensures[C08] ghostat("ctxdone", reg.Context()) == 1
+// dropping a region from the connection cache detaches it from its connection and from that connection's region set;
+// the set of cached connections itself is unchanged - a live connection is never forgotten (which would make the next
+// put dial a second one), only clientDown removes connections (C20)
 //@ func gohbase.(*clientRegionCache).del
-//@   trusted "frame abstraction for the establisher: touches the connection cache and the region's client, not the availability marks"
-//@   modifies X.regionstate, X.regclient
+//@   modifies X.regclient, D.map[hrpc.RegionInfo]struct{}, C.map[hrpc.RegionInfo]struct{}
+//@   ensures[C20] forall(a, haskey(rcc.regions, a) == old(haskey(rcc.regions, a)) && rcc.regions[a] == old(rcc.regions[a]))
+// range intersection with an empty stop key meaning +infinity, same table (namespace-qualified)
+//@ pred gohbase.overlapSpec(a, b) = seqeq(a.Namespace(), b.Namespace()) && seqeq(a.Table(), b.Table()) && (len(b.StopKey()) == 0 || lexlt(a.StartKey(), b.StopKey())) && (len(a.StopKey()) == 0 || lexlt(b.StartKey(), a.StopKey()))
+//@ func gohbase.isRegionOverlap
+//@   requires regA != nil && regB != nil
+//@   modifies nothing
+//@   panics never[C08]
+//@   ensures[C08] r0 == overlapSpec(regA, regB)
+// the overlap search: every region it returns is a cached region that overlaps the new one (soundness). That it returns
+// ALL of them (completeness, the part that walks the B-tree enumerator) is not under contract: bounded complement only.
+//@ func gohbase.(*keyRegionCache).getOverlaps
+//@   trusted "B-tree enumeration (Seek / Prev / Next): soundness of the result assumed here, soundness and completeness exercised by the bounded complement of C08"
+//@   modifies nothing
+//@   ensures forall(k, 0 <= k && k < len(r0), r0[k] != nil && overlapSpec(r0[k], reg))
+// insert-if-newer: a region already cached, or overlapping a younger cached region, leaves the cache unchanged and
+// nothing is marked dead; otherwise every overlapping region found is older or of the same age, is removed and is
+// marked dead
 //@ func gohbase.(*keyRegionCache).put
-//@   trusted "frame abstraction for the establisher (the cache behaviour itself is the subject of C08)"
+//@   requires reg != nil
 //@   modifies X.regionstate, X.ctxdone
+//@   ensures[C08] !r1 ==> ghost("regionstate") == old(ghost("regionstate")) && forall(x, ghostat("ctxdone", x) == old(ghostat("ctxdone", x)))
+//@   ensures[C08] r1 ==> forall(k, 0 <= k && k < len(r0), r0[k] != nil && overlapSpec(r0[k], reg) && r0[k].ID() <= reg.ID() && ghostat("ctxdone", r0[k].Context()) == 1)
+//@   loop 1 invariant[C08] forall(j, 0 <= j && j < idx1, overlaps[j].ID() <= reg.ID())
+//@   loop 2 invariant[C08] forall(j, 0 <= j && j < idx2, ghostat("ctxdone", overlaps[j].Context()) == 1) && forall(x, old(ghostat("ctxdone", x)) == 1 ==> ghostat("ctxdone", x) == 1)
+//@   loop 2 invariant[C08] replaced && forall(j, 0 <= j && j < len(overlaps), overlaps[j] != nil && overlapSpec(overlaps[j], reg) && overlaps[j].ID() <= reg.ID())
 // exactly the goroutine that created the mark starts the (single) establisher of the region: it hands over the token
 //@ func gohbase.(*client).reestablishRegion
-//@   requires reg != nil && ghostat("unavail", reg) == 1 && ghostat("token", reg) == 1
+//@   requires[C09] reg != nil && ghostat("unavail", reg) == 1 && ghostat("token", reg) == 1
 //@   at spawn ghost token[reg] == 0
 // (configuration fixed at construction; the test hooks are nil - A7)
 //@   at call establishRegion#1 ghost closedexit == 0
@@ -408,6 +434,9 @@ package gohbase
 //@   at call sleepAndIncreaseBackoff#1 assert[C17] backoff == 0 || onSched(backoff)
 //@   loop 1 invariant[C09] reg != nil && ghostat("unavail", reg) == 1
 //@   loop 1 invariant[C17] backoff == 0 || onSched(backoff)
+// every attempt but the first resolves the location again: a region that moved is not probed at its stale address for
+// ever (the safety part of "a request whose region moved eventually succeeds", C04)
+//@   loop 1 invariant[C04] backoff != 0 ==> addr == ""
 // every exit releases the waiters of the region it was started for, and of the replacement region once adopted - except
 // when the whole client has been closed (ghost closedexit)
 //@   at return 5 ghost closedexit == 1
